@@ -30,6 +30,20 @@ FUNCTION f (x : INTEGER) : INTEGER;
 END_FUNCTION;
 END_SCHEMA;
 """
+# which wording belongs to which class (my reading of the class names)
+CLASS_WORDING = {'downcast': r'(?i)downcast', 'invariant_condition': r'condition is always', 'invalid_case': r'CASE label', 'unnecessary_qualifiers': r'unnecessary qualifiers',
+                 'limits': r'extremely small magnitude', 'unsupported': r'Unsupported language feature', 'indexing': r'aggregation types'}
+DOWNCAST = r"""SCHEMA dc;
+ENTITY b1 SUPERTYPE OF (s1); END_ENTITY;
+ENTITY s1 SUBTYPE OF (b1); att : INTEGER; END_ENTITY;
+ENTITY b2 SUPERTYPE OF (s2); END_ENTITY;
+ENTITY s2 SUBTYPE OF (b2); att : INTEGER; only2 : INTEGER; END_ENTITY;
+TYPE sel = SELECT (b1, b2); END_TYPE;
+ENTITY u; s : sel; p : b1;
+WHERE w1 : s.att > 0; w2 : s.only2 > 0; w3 : p.att > 0;
+END_ENTITY;
+END_SCHEMA;
+"""
 CLASSES = ['indexing', 'downcast', 'unsupported', 'limits', 'unknown_subtype', 'circular_subtype', 'circular_select', 'entity_as_type',
            'invariant_condition', 'invalid_case', 'unnecessary_qualifiers']
 
@@ -232,7 +246,7 @@ def main():
             chk.outcome(kp.split('/')[0])
             chk.violation('%s/%s' % (PID, kp), what, dict(c))
     # ---- warning switches
-    wschemas = [('warn', WARN), ('ks', gfam.KS)]
+    wschemas = [('warn', WARN), ('downcast', DOWNCAST), ('ks', gfam.KS)]
     want = ('unique_qualifiers', 'select_lookup_enum', 'aggregate_index_attr', 'ap203/ap203.exp', 'pdm_schema') + (('ap209', 'ap210e3', 'ap239') if args.tier == 'thorough' else ())
     for nm, p in gfam.shipped():
         if any(k in nm for k in want):
@@ -317,6 +331,29 @@ def main():
                 if l in seen:
                     chk.violation('%s/switch/line-in-two-classes/%s+%s' % (PID, seen[l], c), 'warning %r is switched by two classes' % l[:100], {'kind': 'switch', 'name': nm})
                 seen[l] = c
+    # a warning belongs to the class its wording names (reference table from the class names and the message texts, not from the tool's own table):
+    # it must appear with -w <class> and disappear with -w all -i <class>
+    seen_words = set()
+    for nm, _ in wschemas:
+        for c, rx in CLASS_WORDING.items():
+            L = set(l for l in warns(allw[nm]) if re.search(rx, l))
+            if not L:
+                continue
+            seen_words.add(c)
+            on = warns(runs[(nm, c, '-w')][1])
+            off = warns(runs[(nm, c, '-i')][1])
+            for l in sorted(L - on):
+                chk.violation('%s/switch/not-enabled-by-its-class/%s/%s' % (PID, c, re.search(r'PW\d+', l).group(0) if re.search(r'PW\d+', l) else '?'),
+                              'on %s: %r is printed with -w all but not with -w %s' % (nm, l[:100], c), {'kind': 'switch', 'name': nm, 'cls': c, 'text': dict(wschemas)[nm][:3000], 'args': ['-w', c]})
+            for l in sorted(L & off):
+                chk.violation('%s/switch/not-ignored-by-its-class/%s/%s' % (PID, c, re.search(r'PW\d+', l).group(0) if re.search(r'PW\d+', l) else '?'),
+                              'on %s: %r is still printed with -w all -i %s' % (nm, l[:100], c), {'kind': 'switch', 'name': nm, 'cls': c, 'text': dict(wschemas)[nm][:3000], 'args': ['-w', 'all', '-i', c]})
+    chk.extra['classes_with_a_warning_raised'] = sorted(seen_words)
+    codes = sorted(set(re.findall(r'PW\d+', ' '.join(l for nm, _ in wschemas for l in warns(allw[nm])))))
+    chk.extra['warning_codes_raised'] = codes
+    for need in ('PW014', 'PW015'):
+        if need not in codes:
+            chk.harness_error('vacuous: no schema raises %s (%s)' % (need, codes))
     chk.extra['warning_counts_with_w_all'] = {k: v['warnings'] for k, v in allw.items()}
     chk.bounds = {'fault_cases': len(cases), 'switch_runs': len(sw)}
     if chk.outcomes.get('named-correctly', 0) == 0 or chk.outcomes.get('switch-effective', 0) == 0:
